@@ -532,7 +532,7 @@ func c27Rejected(c *core.Ctx) {
 		var ref []string
 		for ki, kind := range c27Readers {
 			rd := c27Reader(kind, stream, r)
-			uo := protodelim.UnmarshalOptions{UnmarshalOptions: proto.UnmarshalOptions{AllowPartial: allowPartial}, MaxSize: -1}
+			uo := protodelim.UnmarshalOptions{UnmarshalOptions: proto.UnmarshalOptions{AllowPartial: allowPartial}} // default MaxSize: a desynchronised stream must not make the reader allocate gigabytes
 			var seq []string
 			for i := 0; i <= len(frames)+1; i++ {
 				dst := mt.New()
